@@ -70,7 +70,7 @@ claim("C20", "other", "linear-form + congruence reasoning over induction variabl
       "Decides: each unsafe 8-byte access in mbits (Zero, LeadingZeroes, TrailingZeroes) satisfies 0 <= i and i+8 <= len(data) for every length - index expressions are reduced "
       "to linear forms over n and n&^7 with congruences mod 8 from the loop step and bounds from initial values and dominating guards ('never reading or writing outside it'); "
       "Trunc returns s or a prefix s[:h] with h reached from n by decrements only, under n < len(s), and every s[h-1] is guarded by h > 0 (prefix of at most n bytes, no panic); "
-      "every value CompareNatural returns is a cmp.Compare result, hence in {-1,0,1}. (R-CLASS-AGREE) the two token parsers of CompareNatural classify characters with the same named predicate. Does NOT decide that the zero counts are right, UTF-8 validity, the 'at most 4 bytes "
+      "every value CompareNatural returns is a cmp.Compare result, hence in {-1,0,1}. (R-CLASS-AGREE) the two token parsers of CompareNatural classify characters with the same named predicate. Does NOT decide that the zero counts are right, UTF-8 validity of the result beyond the byte-class tests, the 'at most 4 bytes "
       "shorter' clause, or that CompareNatural is a total preorder.",
       BASE_NOTE,
       "DESIGN.md section 3, C20")
@@ -164,3 +164,41 @@ claim("C02", "other", "affine/guard rules on the recursive insertion's depth bud
       "that the DSW rebuild balances, delete-side threshold) nor the minimum-height claim for New - for those no sound static argument is in reach.",
       BASE_NOTE + " This is the weakest claim in the manifest: a wiring check, kept because each obligation is a genuine necessary condition.",
       "DESIGN.md section 3, C02 and section 8.2")
+
+# ---- rules added after the fifth round of seeded changes: one sentence each, inserted before "Does NOT decide"
+def also(pid, text):
+    t = CLAIMED[pid]["text"]
+    i = t.find("Does NOT decide")
+    CLAIMED[pid]["text"] = (t[:i] + text + " " + t[i:]) if i >= 0 else (t + " " + text)
+
+SIZE_GUARD = ("(R-SIZE-GUARD) a branch on len(container) against a constant that leaves the function having done nothing covers only "
+              "sizes for which nothing needs doing (0; 1 for in-place permutations).")
+also("C01", SIZE_GUARD + " (R-COUNT-FIELD, R-REMOVE-PROMOTE) IsEmpty tests the field Len returns; a whole-tree rebuild is counted by the tree's count field; the child "
+     "promoted in place of a removed node is not one known to be nil while its sibling is not.")
+also("C03", "(R-CURRENT-NODE, R-CURSOR-EQUAL) cursor predicates and moves read the children of the last element of the path; Tree.Cursor hands out a positioned cursor only where the comparison with the key was == 0.")
+also("C04", "(R-SIZE-PAIR, R-COUNT-FIELD under C04) the tree's count is set to 0 only together with the root, and rebuilds are counted by it.")
+also("C02", "(R-DEPTH-BUDGET) the height a recursive call returns is incremented on both sides before use, and New builds the limit function from the balance parameter; "
+     "(R-FRACTION-RANGE) by interval evaluation the weight fraction computed from the balance parameter stays within [1/2, 1] over the range New admits.")
+also("C05", SIZE_GUARD + " NewWithData, Set and Reorder reach a loop that sifts its loop variable down (R-HEAPIFY-COVER); (R-OFFSET-VALID) Remove refuses exactly the offsets Peek refuses; "
+     "(R-POP-CONSERVES) slot i is touched after the cut only under i < new length.")
+also("C06", "(R-OFFSET-VALID) Remove refuses exactly the offsets Peek refuses; (R-POP-CONSERVES) slot i is reported after the cut only under i < new length.")
+also("C08", "(R-HEAP-SHARED) the heap rules of C05/C06 that the LRU store depends on (both-direction repair, tail conservation, position reports, Add's result) are imported as obligations; "
+     "Remove answers true only after the key was found and false only where it was not.")
+also("C10", SIZE_GUARD + " The invalidator of detached entries walks the whole chain (a loop along the link).")
+also("C11", "(R-SPAN-CONSECUTIVE) a path typestate over the script builder: on every path each emitted span of an input starts exactly where that input was left (gap 0 as a linear form, "
+     "or a gap the path's own conditions declare empty), every loop back edge carries the accounted position, an Emit advances rhs by its own width, and every return leaves nothing unaccounted - "
+     "the positional half of 'consumes lhs exactly and produces rhs exactly'. (R-LCS-DIAGONAL) in LCSFunc's match step the new cell's length and back pointer come from one cell, "
+     "the diagonal neighbour in the other row buffer. (R-COUNTER-WIDTH) no counter narrower than 32 bits.")
+also("C12", "(R-LCS-DIAGONAL) in LCSFunc's match step the new cell's length and back pointer come from one cell, the diagonal neighbour in the other row buffer; (R-COUNTER-WIDTH) no arithmetic in, "
+     "or narrowing conversion to, integer types below 32 bits.")
+also("C13", "(R-COND-MIRROR) a same-chunk range test on one side is accompanied by the same test on the other; (R-CONTEXT-CONTIGUOUS) in findContext unequal lines end the scan; "
+     "(R-JOIN-ORDER) a span is grown in place by the neighbour's span, in that order, and the joined edit is dropped from its own list.")
+also("C14", "(R-CURSOR-SIDE) a formatter's left line counter advances by len(e.X), its right one by len(e.Y); (R-UNREAD-FOREIGN) the chunk reader pushes the foreign line back before it reports the tolerated sentinel; "
+     "(R-SPAN-SIBLING) the two span formatters choose the one-number form on the same linear test of (start, end).")
+also("C15", "Split's pooled scanner is covered by R-POOL-RESET too, including 'no use after Put'; a class table shorter than 256 entries indexed by a byte is reported.")
+also("C16", "(R-CLASSOF) the class table has an entry for every byte value.")
+also("C17", SIZE_GUARD + " (R-NO-CAP-BOUND) no comparison bounds a count or index by cap(input).")
+also("C18", SIZE_GUARD + " (R-PREDICATE-WITNESS) IsEmpty tests the length; HasAny answers true only after a successful membership test and never from sizes alone.")
+also("C19", "The constructor stores the requested size unchanged as the buffer limit and the halving loop has an exit on an empty buffer.")
+also("C20", "(R-TOKEN-CASES) text runs are compared only when neither head is numeric and values only when both are, on every path; (R-DIGIT-BASE) the radix equals the number of characters the digit predicate accepts; "
+     "(R-UTF8-CLASS) Trunc's mask tests denote the UTF-8 classes (continuation exactly 0x80..0xBF; lead test contains 0xC2..0xF4 and no ASCII) from position 1 on; (R-ZERO-LEN) Zero returns len(data).")
